@@ -21,7 +21,12 @@ meta = {
     "confirmed": {"how": "tools/verify_seed.sh in a fresh scratch worktree of /repo (removed afterwards)",
                   "demo_on_original_exit": int(m.group(1)), "demo_with_change_exit": int(m.group(2)),
                   "suite_with_change": f"{suite[-1][1]} passed, {suite[-1][0]} failed (the 3 always-failing tests/test_cli.py cases)"},
-    "detected_by": [{"property": prop, "rule": rule}],
 }
+if rule == "REFUSED":
+    meta["refused_by"] = [{"property": prop}]
+    meta["detected_by"] = []
+    meta["note"] = "the static check cannot decide this restructured code: it answers ANALYSIS-ERROR (exit 2), neither a pass nor a claimed violation"
+else:
+    meta["detected_by"] = [{"property": prop, "rule": rule}]
 (dst / "meta.json").write_text(json.dumps(meta, indent=1) + "\n")
 print("installed", dst)
